@@ -17,6 +17,6 @@ meta = {"property": p, "id": f"{p}-{suf}", "what": " ".join(lines[:3])[:400],
         "needs_to_manifest": next((l for l in lines if re.search(r"needs|manifest", l, re.I)), "")[:400],
         "demo": ("python3 " if demo.endswith(".py") else "bash ") + os.path.basename(demo),
         "confirmed_by_me": f"tools/confirm_seed.sh in scratch worktree {base}/{p} at /repo {head}: patch applied, cargo build -p cargo-nextest, demo run (fails), pinned suite run (316 passed, 1 failed = baseline always-fail), patch reverted, rebuilt, demo run (passes): " + (conf[-1].strip() if conf else "?"),
-        "origin": "independent sub-agent given only the property text (round 2)"}
+        "origin": "independent sub-agent given only the property text (round 2+)"}
 json.dump(meta, open(f"{d}/meta.json", "w"), indent=1)
 print("stored", d)
